@@ -32,6 +32,9 @@ type Replay struct {
 	Drain string `json:"drain,omitempty"` // "", fw, bk, turn-fb, turn-bf: the oracle applies to drains
 	// e2e with a fault: the journal of partition OpenFail-1 of the store cannot be opened (0: no fault)
 	OpenFail int `json:"open_fail,omitempty"`
+	// e2e with a removal: while the visit opens its first partition, the (Removed-1)-th other member of the subset is
+	// removed from the tag index (0: no removal)
+	Removed int `json:"removed,omitempty"`
 	// e2e
 	Parts  []PartSpec `json:"parts,omitempty"`
 	Subset []int      `json:"subset,omitempty"`
@@ -829,6 +832,14 @@ func run(c *Ctx) error {
 		defer st.close()
 		// the subset index is the s<j> tag shared by all partitions of the subset
 		j := subsetIndex(rp.Parts, rp.Subset)
+		if rp.Removed > 0 {
+			cs, err := st.runRemoved(j, rp.Subset, rp.Removed-1)
+			if err != nil {
+				return err
+			}
+			c.Add(cs)
+			return c.Finish(rule)
+		}
 		if rp.OpenFail > 0 {
 			cs, err := st.runOpenFail(j, rp.Subset, rp.OpenFail-1)
 			if err != nil {
@@ -928,6 +939,23 @@ func run(c *Ctx) error {
 					continue
 				}
 				cs, err := st.runOpenFail(j, sub, failed)
+				if err != nil {
+					results[i].err = err
+					return
+				}
+				results[i].cases = append(results[i].cases, cs)
+			}
+		}
+		// last on this store (it loses a partition): a partition is removed while a request selects its sources
+		if !st.poisoned && !tooManyHangs() {
+			best := -1
+			for j, sub := range subsets {
+				if len(sub) >= 3 && len(sub) < 50 && (best < 0 || len(sub) > len(subsets[best])) {
+					best = j
+				}
+			}
+			if best >= 0 {
+				cs, err := st.runRemoved(best, subsets[best], r.Intn(64))
 				if err != nil {
 					results[i].err = err
 					return
